@@ -69,8 +69,13 @@ def known_for_engine(prop, famname, known):
 
 def _replay_env(f):
     # the native run sees the same page size as the engine (the memory pool derives its chunk geometry from it)
+    env = {}
     ps = (f.opts or {}).get('pagesize')
-    return {'SYM_PAGESIZE': str(ps)} if ps else None
+    if ps:
+        env['SYM_PAGESIZE'] = str(ps)
+    if (f.opts or {}).get('fp_traps'):
+        env['SYM_FPTRAPS'] = '1'       # the MXCSR value cimba_run_experiment gives its trials
+    return env or None
 
 
 def _doubles_exact(inputs):
@@ -247,6 +252,8 @@ class Check:
                 res['confirmed'] = label in out['fails']
             elif v['kind'] == 'abort':
                 res['confirmed'] = out['rc'] == -6 or 'Assertion' in out['stderr'] or 'assert' in out['stderr'].lower()
+            elif v['kind'] == 'fp-trap':
+                res['confirmed'] = out['rc'] == -8
             else:
                 res['confirmed'] = out['rc'] in (-11, -6, -7, -4) or bool(out['fails'])
                 if not res['confirmed'] and (v['kind'] in ('memory', 'uninit', 'ub', 'control')):
